@@ -29,6 +29,12 @@ for S in $seeds; do
   [ "$S" = "C19-4" ] && props="C19 C02"
   [ "$S" = "C07-3" ] && props="C07 C02"
   [ "$S" = "C17-6" ] && props="C17 C18"
+  [ "$S" = "C16-5" ] && props="C16"
+  [ "$S" = "C19-6" ] && props="C19 C20"
+  [ "$S" = "C07-6" ] && props="C07 C02 C20"
+  [ "$S" = "C08-6" ] && props="C08 C19"
+  [ "$S" = "C01-5" ] && props="C01 C04"
+  [ "$S" = "C09-6" ] && props="C09 C17"
   [ "$S" = "C15-5" ] && props="C15 C14"
   [ "$S" = "C12-5" ] && props="C12 C01 C04"
   [ "$S" = "C12-6" ] && props="C12 C16"
